@@ -106,7 +106,7 @@ fn compare_seed(seed: u64, l: &[Option<&Line>; 4]) -> Option<(String, String)> {
     for (a, b) in [(0usize, 1usize), (2, 3)] {
         if l[a].raw != l[b].raw {
             let field = l[a].fields.iter().find(|(k, v)| l[b].fields.get(*k) != Some(v)).map(|(k, _)| k.clone()).unwrap_or_default();
-            let what = if field.starts_with('c') || field.starts_with('n') || field.starts_with('t') { "compressed_frame" } else if field == "dec" { "decoded_stream_or_results" } else { "other" };
+            let what = if field.starts_with('c') || field.starts_with('n') || field.starts_with('t') || field.starts_with('r') { "compressed_frame" } else if field == "dec" { "decoded_stream_or_results" } else { "other" };
             return Some((format!("C18/std_and_no_std_differ:{what}"), format!("seed {seed}: {} says [{}], {} says [{}]", names[a], l[a].raw, names[b], l[b].raw)));
         }
     }
@@ -128,6 +128,12 @@ fn compare_seed(seed: u64, l: &[Option<&Line>; 4]) -> Option<(String, String)> {
         // without the feature the frame is exactly the normal form
         if n.fields.get(&format!("c{lvl}")) != n.fields.get(&format!("n{lvl}")) {
             return Some(("C18/no_hash_frame_not_normal_form".into(), format!("seed {seed} level {lvl}")));
+        }
+    }
+    // frames from a reused compressor fed through `take` (normal form): only flag and trailer may differ
+    for k in ["r0", "r1"] {
+        if h.fields.get(k) != n.fields.get(k) {
+            return Some(("C18/hash_feature_changes_frame_beyond_checksum:reused_compressor".into(), format!("seed {seed}: frame {k} of a reused compressor differs between hash and no-hash builds after clearing the checksum flag and dropping the trailer")));
         }
     }
     if h.fields.get("in") != n.fields.get("in") {
@@ -225,7 +231,7 @@ pub fn check(tier: Tier, opts: &CheckOpts) -> i32 {
             "coverage": {
                 "evaluations": runs * 4,
                 "distinct_nontrivial": distinct.len(),
-                "rule": "one evaluation = one seed executed by one of the four driver builds; per seed the driver (1) compresses a generated input (<= 20 KB, 1 in 10 up to 300 KB) at both levels through a fragmenting SimReader into a short-writing SimSink (incl. Interrupted behind write_all), (2) decodes 1-3 pool frames (repository corpus frames <= 96 KiB and the frames just produced) with a seeded reader-API or streaming program under short reads, Interrupted at seeded byte positions and occasional EOF, (3) prints digests of the compressor output, of its normal form (checksum flag cleared, trailer dropped), the trailer state and of every decoded stream with the result variants. Every seed is non-trivial (fragmentation or a fault is scripted in all); distinct = distinct digest lines among seeds.",
+                "rule": "one evaluation = one seed executed by one of the four driver builds; per seed the driver (1) compresses a generated input (<= 20 KB, 1 in 10 up to 300 KB) at both levels through a fragmenting SimReader into a short-writing SimSink (incl. Interrupted behind write_all), (1b) writes two frames from ONE reused compressor whose sources are wrapped in Read::take with limits cutting the inputs short, (2) decodes 1-3 pool frames (repository corpus frames <= 96 KiB and the frames just produced) with a seeded reader-API or streaming program (drains: collect, read, collect_to_writer into a SimSink or into a plain byte slice smaller than the pending data) under short reads, Interrupted at seeded byte positions and occasional EOF, (3) prints digests of the compressor output, of its normal form (checksum flag cleared, trailer dropped), the trailer state and of every decoded stream with the result variants. Every seed is non-trivial (fragmentation or a fault is scripted in all); distinct = distinct digest lines among seeds.",
                 "samples": samples,
                 "runs_per_hour": if wall > 0.0 { (runs as f64 * 4.0 / wall * 3600.0) as u64 } else { 0 },
                 "seeds_per_hour": if wall > 0.0 { (runs as f64 / wall * 3600.0) as u64 } else { 0 },
